@@ -1,13 +1,63 @@
 //! C08 (interval clause): the real `IntervalJoin` on a scripted source (`renoir::verif::ops::interval_join`).
-//! header: `ivjoin <lower> <upper>`; ops: `e <elem>`; see lean/Driver/Ivjoin.lean.
+//! header: `ivjoin <lower> <upper>` (any i64s); ops: `e <elem>` (any i64 timestamps); see lean/Driver/Ivjoin.lean.
 use nvh::*;
 use renoir::operator::{Operator, StreamElement};
 use renoir::verif::ops::{interval_join, Bin};
 use renoir::verif::ScriptOp;
 
+const MAX: i64 = i64::MAX;
+const MIN: i64 = i64::MIN;
+const E18: i64 = 1_000_000_000_000_000_000;
+
+/// bounds: small non-negative (the documented use), small negative, +-10^18, the i64::MIN / i64::MAX
+/// neighbourhoods
+fn pick_bound(rng: &mut Rng) -> i64 {
+    match rng.below(12) {
+        0..=4 => *rng.pick(&[0i64, 0, 1, 2, 3, 5, 10]),
+        5 | 6 => *rng.pick(&[-1i64, -1, -2, -3, -10]),
+        7 => *rng.pick(&[E18, -E18]),
+        8 => MAX - rng.range(0, 2),
+        9 => MIN + rng.range(0, 2),
+        _ => rng.range(-4, 4),
+    }
+}
+
+/// first timestamp of an iteration: small, negative, next to i64::MAX / i64::MIN, around +-10^18
+fn pick_start(rng: &mut Rng) -> i64 {
+    match rng.below(10) {
+        0..=2 => rng.range(0, 5),
+        3 | 4 => rng.range(-12, 0),
+        5 | 6 => MAX - rng.range(0, 30),
+        7 => MIN + rng.range(0, 5),
+        8 => *rng.pick(&[E18, -E18]) + rng.range(-3, 3),
+        _ => rng.range(-3, 3),
+    }
+}
+
 fn gen(rng: &mut Rng, i: usize) -> Case {
-    let lower = *rng.pick(&[0i64, 0, 1, 2, 3, 5, 10]);
-    let upper = *rng.pick(&[0i64, 0, 1, 2, 3, 5, 10]);
+    // fixed first cases: the witnesses of the two defects fixed in /repo a398b65 and 928fdec
+    if i == 0 {
+        // `checked_sub(-1).unwrap_or(MIN)` at i64::MAX opened the interval downwards: spurious pair (1,100)
+        let mut c = Case::new(&["ivjoin", "-1", "0"]);
+        c.op(&["e", "T:(0,R100):5"]);
+        c.ops(vec!["e".into(), format!("T:(0,L1):{MAX}")]);
+        c.op(&["e", "FAR"]);
+        return c;
+    }
+    if i == 1 {
+        // `last_seen` started at 0: a negative first timestamp tripped `assert!(ts >= self.last_seen)`
+        let mut c = Case::new(&["ivjoin", "2", "1"]);
+        c.op(&["e", "T:(0,R100):-7"]);
+        c.op(&["e", "T:(0,L1):-5"]);
+        c.op(&["e", "W:-5"]);
+        c.op(&["e", "FAR"]);
+        c.op(&["e", "T:(0,L2):-9"]);
+        c.op(&["e", "T:(0,R101):-9"]);
+        c.op(&["e", "FAR"]);
+        return c;
+    }
+    let lower = pick_bound(rng);
+    let upper = pick_bound(rng);
     let mut c = Case::new(&["ivjoin", &lower.to_string(), &upper.to_string()]);
     let malformed = rng.chance(1, 30);
     let iters = rng.range(1, 3);
@@ -15,16 +65,19 @@ fn gen(rng: &mut Rng, i: usize) -> Case {
     for _ in 0..iters {
         let n = rng.range(0, 12);
         let nkeys = *rng.pick(&[1i64, 2, 3]);
-        let mut t = rng.range(0, 5);
+        let mut t = pick_start(rng);
         for _ in 0..n {
-            // boundary seeking: steps of 0 (ties), exactly lower/upper, or small
-            t += match rng.below(6) {
+            // boundary seeking: steps of 0 (ties), exactly |lower| / |upper|, one past, or small; the additions
+            // saturate, so a run may end in a plateau at i64::MAX
+            let step = match rng.below(7) {
                 0 => 0,
-                1 => lower,
-                2 => upper,
-                3 => upper + 1,
+                1 => lower.saturating_abs(),
+                2 => upper.saturating_abs(),
+                3 => upper.saturating_abs().saturating_add(1),
+                4 => lower.saturating_abs().saturating_sub(1).max(0),
                 _ => rng.range(0, 3),
             };
+            t = t.saturating_add(step);
             v += 1;
             let k = rng.range(0, nkeys - 1);
             let side = if rng.chance(1, 2) { "L" } else { "R" };
@@ -32,13 +85,19 @@ fn gen(rng: &mut Rng, i: usize) -> Case {
                 if rng.chance(1, 2) {
                     c.ops(vec!["e".into(), format!("I:({k},{side}{v})")]);
                 } else {
-                    c.ops(vec!["e".into(), format!("T:({k},{side}{v}):{}", t - rng.range(1, 3))]);
+                    c.ops(vec!["e".into(), format!("T:({k},{side}{v}):{}", t.saturating_sub(rng.range(1, 3)))]);
                 }
             } else {
                 c.ops(vec!["e".into(), format!("T:({k},{side}{v}):{t}")]);
             }
+            if rng.chance(1, 6) {
+                // the same key at the same timestamp on the other side
+                v += 1;
+                let other = if side == "L" { "R" } else { "L" };
+                c.ops(vec!["e".into(), format!("T:({k},{other}{v}):{t}")]);
+            }
             if rng.chance(1, 5) {
-                let w = t + if rng.chance(1, 2) { 0 } else { rng.range(0, 4) };
+                let w = t.saturating_add(if rng.chance(1, 2) { 0 } else { rng.range(0, 4) });
                 t = w;
                 c.ops(vec!["e".into(), format!("W:{w}")]);
             }
